@@ -68,3 +68,31 @@ def standard_main(prop):
         code, _ = E.run_property(prop, tier, seed)
         return code
     return main
+
+
+_GRID = {}
+
+
+def small_grid(tier, shard, nshards):
+    """Exhaustive small sub-domain: every coefficient pair in [-n, n]^2 at every scale pair of a scale set
+    (quick: n = 6, scales {0,1,2,9,17,18}; thorough: n = 12, all 19 scales). Returns this shard's slice of
+    (a, p, b, q) tuples. Residue-class and small-number slips cannot hide from an enumeration."""
+    key = (tier, shard, nshards)
+    if key not in _GRID:
+        n = 6 if tier == "quick" else 12
+        scales = (0, 1, 2, 9, 17, 18) if tier == "quick" else tuple(range(19))
+        out = []
+        i = 0
+        for a in range(-n, n + 1):
+            for b in range(-n, n + 1):
+                for p in scales:
+                    for q in scales:
+                        if i % nshards == shard:
+                            out.append((a, p, b, q))
+                        i += 1
+        _GRID[key] = out
+    return _GRID[key]
+
+
+GRID_NOTE = ("exhaustive sub-domain: every coefficient pair in [-6, 6]^2 x scales {0,1,2,9,17,18}^2 (quick) / "
+             "[-12, 12]^2 x all 361 scale pairs (thorough)")
